@@ -4,7 +4,8 @@ import Driver.Util
 Driver glue for the `Finger` domain.
 
     finger.globs <n> (<neg> <k> <path>{k}){n}                         → <path>* | -
-    finger.hist  <nPaths> (<baseHex> <dir>){nPaths} <nTasks> <task>{nTasks} <nSteps> <step>{nSteps}
+    finger.hist  <nPaths> (<pathHex> <dir>){nPaths} <nDirs> <dirLen>{nDirs} <nTasks> <task>{nTasks} <nSteps> <step>{nSteps}
+        pathHex: the slash path relative to the project root;  dirLen: length of `<dir>/` for task directory 0, 1, …
         task := <nameHex> <labelHex> <method> <prompt> <dir> <pats> <pats> <k> <path>{k} <nCmds> (<k> (<path> <contentHex>){k}){nCmds}
         pats := <n> (<neg> <k> <path>{k}){n}
         step := I <task> <mode> <now> <yes> <fail> <kill> | W <path> <contentHex> <mtime> | T <path> <mtime>
@@ -79,10 +80,12 @@ def enumFrom {α : Type} : Nat → List α → List (Nat × α)
 
 def proj : P Proj := do
   let paths ← many (do let b ← bytes; let d ← optNat; pure (b, d))
+  let dirLens ← many nat
   let tasks ← many task
   let ps := enumFrom 0 paths
   pure { base := ps.map (fun x => (x.1, x.2.1)),
          dirOf := ps.filterMap (fun x => x.2.2.map (fun d => (x.1, d))),
+         dirLen := enumFrom 0 dirLens,
          tasks }
 
 /-! rendering -/
